@@ -86,8 +86,12 @@ def build_plan(choice: Choice, tier: str, family: str):
     p["rq_max"] = [None, 1, 2, 3][d(4, "rq_max")]
     if p["factory"]:
         p["quota"] = [math.inf, 1, 2, 3][d(4, "quota")]
+        if family == "multi" and p["quota"] != math.inf and d(6, "quota.fraction") == 5:
+            p["quota"] += 0.5       # the parameter is a float: a fractional quota retires after ceil(quota) chunks
     else:
         p["quota"] = math.inf
+    # join_timeout (C03 only): a retiring worker that is slow to exit must still be replaced
+    p["join_timeout"] = 1 if (family == "multi" and d(6, "join_timeout") == 5) else None
     if family == "single":
         # mostly one call per pool; a quarter of the runs make a second call so that per-call state that
         # survives a call is also seen by the single-call properties
@@ -106,7 +110,7 @@ def build_plan(choice: Choice, tier: str, family: str):
             n = max(0, call["chunk"] * (1 + d(3, "items.mult")) + d(3, "items.off") - 1)
         elif kind == 2 and p["quota"] != math.inf:
             # retirement exactly at the end of the call: chunks == quota * workers
-            n = call["chunk"] * p["quota"] * p["workers"]
+            n = call["chunk"] * int(math.ceil(p["quota"])) * p["workers"]
         else:
             n = ITEM_CHOICES[d(len(ITEM_CHOICES), "items")] if not thorough else d(41, "items")
         n = min(n, 40 if thorough else 16)
@@ -219,6 +223,8 @@ def scenario(k: Kernel, plan, obs):
             return Worker(plan["quota"])
 
     kw = {"context": ctx, "work_queue_maxsize": plan["wq_max"], "results_queue_maxsize": plan["rq_max"]}
+    if plan.get("join_timeout"):
+        kw["join_timeout"] = plan["join_timeout"]
     if plan["factory"]:
         pool = FactoryFunctorPool(plan["workers"], Factory(), **kw)
     else:
@@ -516,6 +522,8 @@ def evaluate(prop, plan, obs, k: Kernel, kind, info):
     for name, exc, tb in k.task_errors:
         if "Boom" in exc:
             continue
+        if plan.get("join_timeout") and name.startswith("worker") and "SimManagerClosed" in exc:
+            continue    # with join_timeout a slow worker may legitimately outlive the pool and its manager
         role = name.split("#")[0]
         thread_v.append({"class": "task-died", "site": f"{role}:{exc.split('(')[0]}",
                          "message": f"{name} died: {exc}"})
